@@ -37,7 +37,7 @@ class OpaqueT(Ty):
 class MetaT(Ty):
     def __repr__(s): return 'metadata'
 
-TOK = re.compile(r'\s*(%"(?:[^"\\]|\\.)*"|%[\w.$-]+|@"(?:[^"\\]|\\.)*"|@[\w.$-]+|c"(?:[^"\\]|\\.)*"|<\{|\}>|\.\.\.|[\[\]{}()<>*,=]|-?\d+\.\d+e[+-]?\d+|0x[0-9A-Fa-f]+|-?\d+|[\w.]+|![\w.]*|#\d+)')
+TOK = re.compile(r'\s*(%"(?:[^"\\]|\\.)*"|%[\w.$-]+|\$"(?:[^"\\]|\\.)*"|\$[\w.$-]+|@"(?:[^"\\]|\\.)*"|@[\w.$-]+|c"(?:[^"\\]|\\.)*"|<\{|\}>|\.\.\.|[\[\]{}()<>*,=]|-?\d+\.\d+e[+-]?\d+|0x[0-9A-Fa-f]+|-?\d+|[\w.]+|![\w.]*|#\d+)')
 
 def tokenize(s):
     out = []; i = 0
@@ -147,6 +147,8 @@ def parse_module(text):
         if ln.startswith('%') and ' = type ' in ln:
             name, rest = ln.split(' = type ', 1)
             m.types[unq(name[1:])] = P(tokenize(rest)).type()
+        elif ln.startswith('@llvm.used') or ln.startswith('@llvm.compiler.used') or ln.startswith('@llvm.global_ctors') or ln.startswith('@llvm.global_dtors'):
+            pass      # linker bookkeeping, not program state (static constructors are not run by any harness: a reachable guard/initialiser call fails as 'no body')
         elif ln.startswith('@'):
             parse_global(m, ln)
         elif ln.startswith('declare '):
@@ -209,6 +211,7 @@ def strip_meta(s):
     # drop trailing metadata attachments ", !tbaa !5" and "#nn" and comments
     s = re.sub(r';.*$', '', s) if ' c"' not in s else s
     s = re.sub(r',\s*!\w+(\.\w+)*\s+!\w+', '', s)
+    s = re.sub(r',?\s*section\s+"[^"]*"', '', s)
     return s
 
 def parse_fn_header(ln):
@@ -589,10 +592,13 @@ class FnEmit:
         if op == 'unreachable':
             s.emit('VP_ASSERT(0, "LLVM unreachable executed (undefined behaviour)"); VP_ASSUME(0);'); return
         if op == 'resume':
-            s.emit('return%s; /* resume: exception stays pending */' % s.retdefault()); return
+            s.emit('vp_exc_pending = 1; return%s; /* resume: unwinding continues in the caller */' % s.retdefault()); return
         if op == 'landingpad':
             ty = p.type(); s.vt[dst] = ty
             s.emit('%s.f0 = vp_exc_obj; %s.f1 = vp_exc_sel;' % (s.v(dst), s.v(dst)))
+            # the clean-up code of a landing pad runs like ordinary code: the calls it makes (destructors, and the calls THEY make) must not be
+            # taken for throwing ones because an exception is in flight.  The exception (kind, object) stays recorded; `resume` re-raises it.
+            s.emit('vp_exc_pending = 0;')
             if 'catch' in toks: s.emit('/* catch clauses: %s */' % ' '.join(toks[p.i:]))
             return
         if op in ('call', 'invoke'):
